@@ -19,3 +19,5 @@ def check(ctx, env):
     R.r12_2_one_insert(ctx, prog, rule="R11.4")
     R.r5_3_retransmit(ctx, prog, rule="R11.4")
     R.r5_2_finished(ctx, prog, rule="R11.4")
+    # a pending request stays in the heap until it finishes: received indications never reach transaction_finished
+    R.r12_3_indication(ctx, prog, rule="R11.5")
